@@ -7,12 +7,16 @@ import (
 	"verif/checker/internal/an"
 )
 
-func TestDbgRoots(t *testing.T) {
+func TestDbgChans(t *testing.T) {
 	p, err := an.Load(an.Config{Dir: "/repo"})
 	if err != nil {
 		t.Fatal(err)
 	}
-	for _, r := range frontendRoots(p) {
-		fmt.Println(r.Kind, r.Name)
+	for _, op := range p.ChanOps() {
+		var ss []string
+		for _, m := range op.Sites {
+			ss = append(ss, fmt.Sprintf("%s(cap %d)", p.InstrPos(m), an.ChanCap(m)))
+		}
+		fmt.Printf("%-45s %-5s blocking=%-5v sel=%-5v nil=%-5v %v  [%s] roles=%v\n", an.FnName(op.Fn), op.Kind, op.Blocking, op.InSelect, op.NilPoss, ss, op.Desc, an.RoleNames(p.Roles(op.Fn, false)))
 	}
 }
